@@ -87,16 +87,38 @@ func c03Call(m, k string, v SX) SX   { return L(Str(m), Str(k), v) }
 
 var c03Locs []*time.Location
 
+// The location the process-global variable time.Local pointed to when the harness started.  C03
+// re-points time.Local (c03SetLocal) between building a Field and encoding it -- the ambient state
+// of coq/theories/C03/Lang.v (e_local) -- and always puts this one back.
+var c03OrigLocal *time.Location
+
+// the locations time.Local is re-pointed to (all of them registered in c03Locs, so that a time in
+// "the local zone of the moment" has a known identity): the original one, UTC (the
+// `time.Local = time.UTC` idiom), fixed non-UTC zones -- one of them NAMED "Local" --, a tzdata zone
+var c03AmbLocs []*time.Location
+
 func c03InitLocs() {
 	if c03Locs != nil {
 		return
 	}
+	c03OrigLocal = time.Local
+	plus5, fakeLocal := time.FixedZone("UTC+5", 5*3600), time.FixedZone("Local", -3*3600)
 	c03Locs = []*time.Location{time.UTC, time.Local,
-		time.FixedZone("X", 5*3600+1800), time.FixedZone("UTC", 0), time.FixedZone("", -7*3600), time.FixedZone("far", -12*3600+1)}
+		time.FixedZone("X", 5*3600+1800), time.FixedZone("UTC", 0), time.FixedZone("", -7*3600), time.FixedZone("far", -12*3600+1),
+		plus5, fakeLocal}
+	c03AmbLocs = []*time.Location{c03OrigLocal, time.UTC, plus5, c03Locs[2], fakeLocal}
 	if ny, err := time.LoadLocation("America/New_York"); err == nil {
-		c03Locs = append(c03Locs, ny)
+		c03Locs = append(c03Locs, ny) // c03Times expects the tzdata zone last
+		c03AmbLocs = append(c03AmbLocs, ny)
 	}
 }
+
+// c03SetLocal re-points the process-global time.Local.  Only ever called from the single goroutine
+// that runs C03; every caller restores c03OrigLocal (deferred) before C03 returns.
+func c03SetLocal(l *time.Location) { time.Local = l }
+
+// the identity of the location time.Local points to right now
+func c03AmbID() int { return c03LocID(time.Local) }
 func c03LocID(l *time.Location) int {
 	for i, x := range c03Locs {
 		if x == l {
